@@ -82,6 +82,46 @@ def close(a, b, rel=1e-12, abs_=1e-15):
     return abs(a - b) <= max(rel * max(abs(a), abs(b)), abs_)
 
 
+def thread_stress(ctx, duration):
+    """several threads ask for intervals at different confidence levels at the same time; each answer must be the sequential one"""
+    import sys
+    import threading
+    import time
+    from pyab_experiment.utils import stats
+    levels = [0.5, 0.999, 0.9, 0.95, 0.99]
+    want = {(c, m): stats.confidence_interval(n=40, p=0.3, confidence=c, method=m) for c in levels for m in METHODS}
+    wantz = {a: stats.probit(a) for a in (0.25, 0.0005, 0.05)}
+    errors = []
+    stop = time.time() + duration
+    calls = [0]
+
+    def worker(tid):
+        k = tid
+        while time.time() < stop and not errors:
+            c, m = levels[k % len(levels)], METHODS[(k // 3) % 2]
+            got = stats.confidence_interval(n=40, p=0.3, confidence=c, method=m)
+            if got != want[(c, m)]:
+                errors.append({"confidence": c, "method": m, "concurrent": list(got), "sequential": list(want[(c, m)]), "thread": tid})
+            a = (0.25, 0.0005, 0.05)[k % 3]
+            if stats.probit(a) != wantz[a]:
+                errors.append({"alpha": a, "thread": tid})
+            k += 1 if tid % 2 else 2
+            calls[0] += 1
+    old = sys.getswitchinterval()
+    sys.setswitchinterval(1e-6)
+    try:
+        ths = [threading.Thread(target=worker, args=(i,)) for i in range(4)]
+        for t in ths:
+            t.start()
+        for t in ths:
+            t.join()
+    finally:
+        sys.setswitchinterval(old)
+    ctx.count("ci:threaded-calls", calls[0])
+    for e in errors[:2]:
+        ctx.violation(f"confidence_interval / probit called from several threads at once returns something else than sequentially: {json.dumps(e)[:240]}", e)
+
+
 def run(ctx, with_model=True):
     from pyab_experiment.utils import stats
     scale = N[ctx.tier]
@@ -168,6 +208,20 @@ def run(ctx, with_model=True):
             ctx.violation(f"result differs from the textbook {m} formula: got ({lo!r},{hi!r}) expected ({float(elo)!r},{float(ehi)!r}) "
                           f"n={n} p={p!r} confidence={c!r}", {"n": n, "p": p, "c": c, "m": m, "impl": [lo, hi], "formula": [str(elo), str(ehi)]})
         widths[(m.lower(), n, p, c)] = hi - lo
+    # the numeric TYPE of an argument is not part of its value: p = 1 is the proportion 1.0, n = 10.0 is n = 10
+    for m in METHODS:
+        for n in (1, 2, 10, 1000):
+            for c in (0.5, 0.95, 0.999):
+                for a, b in ((dict(n=n, p=1), dict(n=n, p=1.0)), (dict(n=n, p=0), dict(n=n, p=0.0)), (dict(n=n, p=True), dict(n=n, p=1.0)),
+                             (dict(n=float(n), p=0.5), dict(n=n, p=0.5)), (dict(n=n, p=False), dict(n=n, p=0.0))):
+                    oa = common.outcome_of(lambda: stats.confidence_interval(confidence=c, method=m, **a))
+                    ob = common.outcome_of(lambda: stats.confidence_interval(confidence=c, method=m, **b))
+                    ctx.case(("ci-type", m, n, c, repr(a)), True)
+                    ctx.count("ci:argument-type-pairs")
+                    if oa != ob:
+                        ctx.violation(f"confidence_interval({a}, confidence={c}, {m!r}) = {json.dumps(oa)[:90]} but with the same values as floats/ints {b}: {json.dumps(ob)[:90]}",
+                                      {"a": repr(a), "b": repr(b), "c": c, "m": m, "impl_a": oa, "impl_b": ob})
+    thread_stress(ctx, 1.5 if ctx.tier == "quick" else 20.0)
     # narrowing with n, widening with confidence (tolerance: a few ulp of the width scale)
     for m in METHODS:
         for p in ps:
